@@ -109,7 +109,57 @@ func unhx(s string) []byte {
 	}
 	return c[:len(b)]
 }
-func okHex(b []byte) string  { return "ok " + hx(b) }
+func okHex(b []byte) string {
+	h := hx(b)
+	holdOutput(b, h)
+	return "ok " + h
+}
+
+// ---- results stay what they were ----------------------------------------------------------------------------
+//
+// Byte slices the library returned (everything printed through okHex) are kept — the slices themselves, not copies —
+// while later ops run; when one of them no longer reads as it did when it was returned, a later call has written into
+// memory the library had already handed out (a pooled or cached buffer).  The case is found again by its output.
+type heldOut struct {
+	b    []byte
+	sum  uint64
+	hexv string
+}
+
+var (
+	heldMu      sync.Mutex
+	held        [16]heldOut
+	heldNext    int
+	aliasEvents []heldOut // hexv = what was returned; b = what the same memory holds now
+)
+
+func fnv64(b []byte) uint64 {
+	h := uint64(14695981039346656037)
+	for _, c := range b {
+		h = (h ^ uint64(c)) * 1099511628211
+	}
+	return h
+}
+
+func sweepHeld() {
+	for i := range held {
+		if held[i].b != nil && fnv64(held[i].b) != held[i].sum {
+			aliasEvents = append(aliasEvents, heldOut{b: append([]byte{}, held[i].b...), hexv: held[i].hexv})
+			held[i] = heldOut{}
+		}
+	}
+}
+
+func holdOutput(b []byte, hexv string) {
+	if len(b) < 8 || len(b) > 1<<16 {
+		return
+	}
+	heldMu.Lock()
+	defer heldMu.Unlock()
+	sweepHeld()
+	held[heldNext%len(held)] = heldOut{b: b, sum: fnv64(b), hexv: hexv}
+	heldNext++
+}
 func okStr(s string) string  { return "ok " + hx([]byte(s)) }
 func hxList(bs [][]byte, sep string) string {
 	if len(bs) == 0 {
@@ -341,6 +391,21 @@ func runCases(ctx *Ctx, cases []Case, par int) {
 		}(i, od)
 	}
 	wg.Wait()
+	heldMu.Lock()
+	sweepHeld()
+	for _, ev := range aliasEvents {
+		c := Case{Op: "(unknown)", Tag: "aliasing"}
+		for i := range cases {
+			if impl[i].out == "ok "+ev.hexv {
+				c = cases[i]
+				break
+			}
+		}
+		ctx.AddMismatch(Mismatch{Kind: "spec", Case: c, Spec: "ok " + truncS(ev.hexv), Size: caseSize(c),
+			Impl: "the bytes returned by this call were overwritten by a later call; the same memory now reads " + truncS(hx(ev.b))})
+	}
+	aliasEvents = nil
+	heldMu.Unlock()
 	allocAudit(ctx, cases, ops, impl)
 	// 2. driver lines
 	var lines []string
